@@ -21,20 +21,15 @@ Definition pm_named (q : pm_query) (tys : list pm_type) : list pm_key :=
     (match pm_q_single q t with Some n => [(t, n)] | None => [] end)
     ++ (match pm_q_plural q t with Some ns => map (pair t) ns | None => [] end)) tys.
 
-(* [tol] = false: the statement's reading (filter true of the object alone);
-   [tol] = true: tolerant of the known finding (filter true with `service` bound to some service) *)
-Definition pm_allow_g (tol : bool) (u : list pm_entry) (perm : pm_str) (inv : list pm_obj) (o : pm_obj) : bool :=
-  if tol then pm_spec_allow_any u perm inv o else pm_spec_allow u perm o.
-
-Definition pm_key_allowed (tol : bool) (u : list pm_entry) (perm : pm_str) (inv : list pm_obj) (k : pm_key) : bool :=
+Definition pm_key_allowed (u : list pm_entry) (perm : pm_str) (inv : list pm_obj) (k : pm_key) : bool :=
   match pm_lookup inv (fst k) (snd k) with
-  | Some o => pm_allow_g tol u perm inv o
+  | Some o => pm_spec_allow u perm o
   | None => false
   end.
 
-Definition pm_key_forbidden (tol : bool) (u : list pm_entry) (perm : pm_str) (inv : list pm_obj) (k : pm_key) : bool :=
+Definition pm_key_forbidden (u : list pm_entry) (perm : pm_str) (inv : list pm_obj) (k : pm_key) : bool :=
   match pm_lookup inv (fst k) (snd k) with
-  | Some o => negb (pm_allow_g tol u perm inv o)
+  | Some o => negb (pm_spec_allow u perm o)
   | None => false
   end.
 
@@ -43,7 +38,7 @@ Definition pm_key_forbidden (tol : bool) (u : list pm_entry) (perm : pm_str) (in
    2. without a matching entry: an error, and no object was consulted;
    3. every returned object exists and is permitted (an entry matches whose filter, if any, is true);
    4. if a forbidden object was addressed by name the call did not return objects. *)
-Definition pm_oracle_q (tol : bool) (u : list pm_entry) (perm : pm_str) (tys : list pm_type) (q : pm_query)
+Definition pm_oracle_q (u : list pm_entry) (perm : pm_str) (tys : list pm_type) (q : pm_query)
            (inv : list pm_obj) (ob : pm_obsv) : bool :=
   match perm with
   | [] => true
@@ -54,8 +49,8 @@ Definition pm_oracle_q (tol : bool) (u : list pm_entry) (perm : pm_str) (tys : l
       && match pv_res ob with
          | None => true
          | Some keys =>
-             forallb (pm_key_allowed tol u perm inv) keys
-             && negb (existsb (pm_key_forbidden tol u perm inv) (pm_named q tys))
+             forallb (pm_key_allowed u perm inv) keys
+             && negb (existsb (pm_key_forbidden u perm inv) (pm_named q tys))
          end
   end.
 
@@ -64,12 +59,12 @@ Definition pm_oracle_perm (u : list pm_entry) (perm : pm_str) (inv : list pm_obj
            (allowed : list pm_key) : bool :=
   match perm with
   | [] => true
-  | _ :: _ => Bool.eqb has (pm_spec_has u perm) && forallb (pm_key_allowed false u perm inv) allowed
+  | _ :: _ => Bool.eqb has (pm_spec_has u perm) && forallb (pm_key_allowed u perm inv) allowed
   end.
 
 (* joined objects that were serialised *)
 Definition pm_oracle_joins (u : list pm_entry) (inv : list pm_obj) (joined : list pm_key) : bool :=
-  forallb (fun k => pm_key_allowed false u (pm_query_perm (fst k)) inv k) joined.
+  forallb (fun k => pm_key_allowed u (pm_query_perm (fst k)) inv k) joined.
 
 (* what the model says about HasPermission's filter over an inventory: allowed keys and keys whose
    evaluation throws *)
